@@ -143,6 +143,9 @@ func poolCommands(i int) (cmds []wire.Op, prep []wire.Op) {
 		// binary pipelines: quiet keys closed by a plain get, and all-quiet closed by a no-op
 		{Kind: "mget", Keys: []string{k("h"), k("m"), k("h2"), k("h")}, Quiet: []bool{true, true, true, false}},
 		{Kind: "mget", Keys: []string{k("h2"), k("h"), k("m")}, Quiet: []bool{true, true, true}, NoopEnd: true},
+		// what the text protocol's "get a a b" produces: every key with opaque 0, nothing quiet
+		{Kind: "mget", Keys: []string{k("h"), k("h"), k("m"), k("h2"), k("h")}, Opaque0: true},
+		{Kind: "mgete", Keys: []string{k("h2"), k("h"), k("h")}, Opaque0: true},
 		// multi-key get-with-expiry (every hit must carry the remaining lifetime)
 		{Kind: "mgete", Keys: []string{k("h"), k("m"), k("h"), k("h2")}},
 	}
